@@ -102,10 +102,17 @@ def scratch_root():
     return d
 
 
+_SCRATCH_COUNTER = [0]
+
+
 @contextlib.contextmanager
 def scratch_dir(tag='case'):
+    # a fresh absolute path for every case of a worker: anything the library under test memoises per path
+    # (a hypothetical cache) then cannot carry over from one case to the next, so that what a worker observes
+    # for a case is what a fresh replay of that case observes
     root = scratch_root()
-    d = os.path.join(root, tag)
+    _SCRATCH_COUNTER[0] += 1
+    d = os.path.join(root, '%s-%d' % (tag, _SCRATCH_COUNTER[0]))
     if os.path.exists(d):
         shutil.rmtree(d, ignore_errors=True)
     os.makedirs(d)
